@@ -155,6 +155,7 @@ func (db *DB) updateWriteTxnPoolLocked(numTables int) {
 func (db *DB) registerTable(table TableMeta) error {
 	db.mu.Lock()
 	defer db.mu.Unlock()
+	vhook("register.locked")
 
 	root := slices.Clone(*db.root.Load())
 
@@ -172,6 +173,7 @@ func (db *DB) registerTable(table TableMeta) error {
 	db.updateWriteTxnPoolLocked(len(root))
 
 	db.root.Store(&root)
+	vhook("register.stored")
 	return nil
 }
 
@@ -213,11 +215,14 @@ func (db *DB) WriteTxn(tables ...TableMeta) WriteTxn {
 		txn.smus[i] = table.sortableMutex()
 	}
 
+	vhook("wtxn.begin")
 	lockAt := time.Now()
 	txn.smus.Lock()
+	vhook("wtxn.locked")
 	acquiredAt := time.Now()
 
 	txn.oldRoot = db.root.Load()
+	vhook("wtxn.rootloaded")
 
 	// Clone the root. This new allocation will become the new root when
 	// we commit.
